@@ -79,6 +79,56 @@ def rating_marker(role):
     return 'kex-strict-s-v00@openssh.com' if role == 'server' else 'kex-strict-c-v00@openssh.com'
 
 
+def sequence_leg(ck, tier):
+    """Several servers in one invocation (-T): a server's Terrapin marks are decided by its own KEXINIT, whatever was audited before
+    it in the same process (exposed peers before marked ones, paired before unpaired, and the other way round)."""
+    import json
+    from checks import multi
+    S, C = 'kex-strict-s-v00@openssh.com', 'kex-strict-c-v00@openssh.com'
+    shapes = [dict(kex=['curve25519-sha256'], enc=['chacha20-poly1305@openssh.com', 'aes128-cbc', 'aes256-ctr'], mac=['hmac-sha2-256-etm@openssh.com', 'umac-128-etm@openssh.com']),
+              dict(kex=['curve25519-sha256', S], enc=['chacha20-poly1305@openssh.com', 'aes128-cbc', 'aes256-ctr'], mac=['hmac-sha2-256-etm@openssh.com', 'umac-128-etm@openssh.com']),
+              dict(kex=['curve25519-sha256'], enc=['aes128-cbc', '3des-cbc', 'aes256-ctr'], mac=['hmac-sha2-256', 'hmac-sha1']),
+              dict(kex=['curve25519-sha256', C], enc=['chacha20-poly1305@openssh.com'], mac=['hmac-sha2-512-etm@openssh.com']),
+              dict(kex=['curve25519-sha256'], enc=['aes256-ctr'], mac=['hmac-sha2-256-etm@openssh.com', 'hmac-sha1-etm@openssh.com'])]
+    cases = [rating.mk_case(700 + i, kex=sh['kex'], key=['ssh-ed25519'], enc=sh['enc'], mac=sh['mac']) for i, sh in enumerate(shapes)]
+    exp = rating.evaluate(ck, cases)
+    orders = [(0, 1, 2, 3, 4), (4, 3, 2, 1, 0), (1, 0, 1), (2, 0, 2, 4), (0, 2), (0, 4, 1)]
+    scs = []
+    for o in orders:
+        for threads in (1, 3):
+            for js in ((True, False) if threads == 1 else (True,)):       # text blocks carry no label: only compared where the order is fixed
+                sc, labels = multi.scenario([('server', rating.server_cfg(cases[i])) for i in o], threads, tuple(range(len(o))) if threads == 1 else None, json_out=js)
+                scs.append((sc, labels, o, threads, js))
+    for (sc, labels, o, threads, js), r in zip(scs, runner.run_many([x[0] for x in scs])):
+        ck.evaluated()
+        if r.get('harness_error') or r.get('hang'):
+            raise common.Machinery('target-list run failed: %r' % (r.get('harness_error') or 'hang'))
+        replay = {'order': o, 'threads': threads, 'argv': sc['argv'], 'exit': r['exit'], 'stdout': r['stdout'][-3000:]}
+        docs = {}
+        try:
+            if js:
+                for el in json.loads(r['stdout']):
+                    docs['%s:%s' % (el.get('target', ':').rsplit(':', 1)[0], el.get('target', ':22').rsplit(':', 1)[1])] = el
+            else:
+                blocks = multi.split_text(r['stdout'])
+                for lab, b in zip(labels, blocks):
+                    docs[lab] = report.parse_text(b)
+        except (ValueError, report.ParseError):
+            ck.violation('target-list-unparsable view=%s' % ('json' if js else 'text'), 'cannot parse the output of a -T run', replay)
+            continue
+        bad = False
+        for pos, (lab, i) in enumerate(zip(labels, o)):
+            if lab not in docs:
+                continue
+            d = rating.compare_terrapin(cases[i], exp[cases[i]['id']], js=docs[lab]) if js else rating.compare_terrapin(cases[i], exp[cases[i]['id']], text=docs[lab])
+            for sig, desc in d:
+                ck.violation('sequence-' + sig + ' threads=%d' % threads, '[target %d of %r, %d thread(s)] %s' % (pos + 1, o, threads, desc), replay)
+                bad = True
+        if not bad:
+            ck.cov['traces_validated_against_impl'] += 1
+            ck.nontrivial(('sequence', o, threads, js))
+
+
 def run(tier):
     ck = common.Check('C04', tier)
     rnd = random.Random(ck.seed)
@@ -137,11 +187,12 @@ def run(tier):
             ck.sample({'case': {x: c[x] for x in ('role', 'kex', 'enc', 'mac')}, 'expected_warned':
                        [l['name'] for cat in ('enc', 'mac') for l in exp['lines'][cat] if rating.TERRAPIN in l['warn']],
                        'expected_advisory': exp['advisory']})
+    sequence_leg(ck, tier)
     ck.cov['rule'] = ('TLC enumerates every class role{server,client} x marker{none,S,C,both} x ChaCha{0,1,2} x CBC{0,1,2} x ETM{0,1,2} x other cipher/MAC '
                       'present or not (enc and mac non-empty) and decides TerrapinExact on each; plus rotation of every database CBC/ChaCha/ETM name and '
                       'unknown names of the same shape through role x marker x paired/unpaired contexts, expected reports from TLC; each case replayed '
                       'in text and JSON. non-trivial = distinct (role,kex,enc,mac) where the peer is exposed or the advisory note is due')
     ck.cov['exhaustive'] = True
     ck.cov['exhaustive_note'] = 'class space exhaustive; name rotation covers every matching database name at least once per role and marker'
-    ck.assumptions += ['client audits run through the fake accept() path of the harness network', 'c2s and s2c lists are equal in all cases']
+    ck.assumptions += ['client audits run through the fake accept() path of the harness network']
     return ck.finish()
